@@ -268,6 +268,19 @@ func init() {
 		return nil
 	})
 
+	poolNew := func(fr *frame, a []value) value {
+		p := a[0].(*value)
+		st := (*p).(structure)
+		// sync.Pool{noCopy, local, localSize, victim, victimSize, New}
+		newFn := st[len(st)-1]
+		if isNilRef(newFn) {
+			return iface{}
+		}
+		return callValue(fr, newFn)
+	}
+	reg("(*sync.Pool).Get", poolNew)
+	reg("(*sync.Pool).Put", func(fr *frame, a []value) value { return nil })
+
 	// ---------------- sync/atomic ----------------
 	for _, ty := range []string{"Int32", "Int64", "Uint32", "Uint64"} {
 		ty := ty
@@ -458,6 +471,77 @@ func init() {
 	reg("strings.ReplaceAll", func(fr *frame, a []value) value {
 		return strings.ReplaceAll(asString(fr, a[0]), asString(fr, a[1]), asString(fr, a[2]))
 	})
+	reg("strings.Replace", func(fr *frame, a []value) value {
+		return strings.Replace(asString(fr, a[0]), asString(fr, a[1]), asString(fr, a[2]), int(asInt64(a[3])))
+	})
+	reg("strings.TrimPrefix", func(fr *frame, a []value) value { return strings.TrimPrefix(asString(fr, a[0]), asString(fr, a[1])) })
+	reg("strings.TrimSuffix", func(fr *frame, a []value) value { return strings.TrimSuffix(asString(fr, a[0]), asString(fr, a[1])) })
+	reg("strings.Fields", func(fr *frame, a []value) value {
+		var out []value
+		for _, s := range strings.Fields(asString(fr, a[0])) {
+			out = append(out, s)
+		}
+		return out
+	})
+	// strings.Builder: kept in a side table (the real one uses unsafe)
+	sb := func(fr *frame, p value) *[]value {
+		ex := fr.ex()
+		k := p.(*value)
+		if ex.builders == nil {
+			ex.builders = map[*value]*[]value{}
+		}
+		b := ex.builders[k]
+		if b == nil {
+			b = &[]value{}
+			ex.builders[k] = b
+		}
+		return b
+	}
+	sbString := func(parts []value) value {
+		var acc value = ""
+		for _, p := range parts {
+			acc = binop(token.ADD, types.Typ[types.String], acc, p)
+		}
+		return acc
+	}
+	reg("(*strings.Builder).WriteString", func(fr *frame, a []value) value {
+		b := sb(fr, a[0])
+		*b = append(*b, a[1])
+		if s, ok := a[1].(string); ok {
+			return tuple{len(s), iface{}}
+		}
+		return tuple{0, iface{}}
+	})
+	reg("(*strings.Builder).WriteByte", func(fr *frame, a []value) value {
+		b := sb(fr, a[0])
+		*b = append(*b, string([]byte{a[1].(byte)}))
+		return iface{}
+	})
+	reg("(*strings.Builder).WriteRune", func(fr *frame, a []value) value {
+		b := sb(fr, a[0])
+		*b = append(*b, string(rune(a[1].(int32))))
+		return tuple{1, iface{}}
+	})
+	reg("(*strings.Builder).Write", func(fr *frame, a []value) value {
+		b := sb(fr, a[0])
+		bs := a[1].([]value)
+		raw := make([]byte, len(bs))
+		for i := range bs {
+			raw[i] = bs[i].(byte)
+		}
+		*b = append(*b, string(raw))
+		return tuple{len(raw), iface{}}
+	})
+	reg("(*strings.Builder).String", func(fr *frame, a []value) value { return sbString(*sb(fr, a[0])) })
+	reg("(*strings.Builder).Len", func(fr *frame, a []value) value {
+		s, ok := sbString(*sb(fr, a[0])).(string)
+		if !ok {
+			panic(unsupported("Builder.Len with symbolic content"))
+		}
+		return len(s)
+	})
+	reg("(*strings.Builder).Grow", func(fr *frame, a []value) value { return nil })
+	reg("(*strings.Builder).Reset", func(fr *frame, a []value) value { *sb(fr, a[0]) = nil; return nil })
 	reg("strconv.Itoa", func(fr *frame, a []value) value { return fmt.Sprint(asInt64(a[0])) })
 	reg("bytes.Equal", func(fr *frame, a []value) value {
 		x, y := a[0].([]value), a[1].([]value)
@@ -733,6 +817,33 @@ func init() {
 	reg("verifGlobalLiteralBool", func(fr *frame, a []value) value {
 		return staticLiteralBool(fr.i.prog, name(fr, a[0]), name(fr, a[1]))
 	})
+	reg("verifSameFunc", func(fr *frame, a []value) value {
+		x, y := a[0].(iface).v, a[1].(iface).v
+		switch fx := x.(type) {
+		case *ssa.Function:
+			fy, ok := y.(*ssa.Function)
+			return ok && fx == fy
+		case *closure:
+			fy, ok := y.(*closure)
+			return ok && (fx == fy || (fx.Fn == fy.Fn && len(fx.Env) == 0))
+		}
+		return false
+	})
+	reg("verifFuncName", func(fr *frame, a []value) value {
+		switch fx := a[0].(iface).v.(type) {
+		case *ssa.Function:
+			if fx == nil {
+				return ""
+			}
+			return fx.String()
+		case *closure:
+			return fx.Fn.String()
+		}
+		return ""
+	})
+	reg("verifCallConstArg", func(fr *frame, a []value) value {
+		return staticCallConstArg(fr.i.prog, name(fr, a[0]), name(fr, a[1]), int(asInt64(a[2])))
+	})
 	reg("verifPermuteMaps", func(fr *frame, a []value) value { fr.ex().permute = fr.ex().truth(a[0]); return nil })
 }
 
@@ -846,4 +957,60 @@ func staticLiteralBool(prog *ssa.Program, full, field string) int {
 		}
 	}
 	return -1
+}
+
+// staticCallConstArg: the constant string passed as argument `idx` by every call to `callee` in
+// package `pkgPath` ("" if there is no such call, "<non-constant>" / "<conflicting>" otherwise).
+func staticCallConstArg(prog *ssa.Program, pkgPath, callee string, idx int) string {
+	pkg := prog.ImportedPackage(pkgPath)
+	if pkg == nil {
+		return ""
+	}
+	res := ""
+	var visit func(f *ssa.Function)
+	seen := map[*ssa.Function]bool{}
+	visit = func(f *ssa.Function) {
+		if f == nil || seen[f] {
+			return
+		}
+		seen[f] = true
+		for _, b := range f.Blocks {
+			for _, in := range b.Instrs {
+				var cc *ssa.CallCommon
+				switch x := in.(type) {
+				case *ssa.Call:
+					cc = &x.Call
+				case *ssa.Go:
+					cc = &x.Call
+				case *ssa.Defer:
+					cc = &x.Call
+				}
+				if cc == nil {
+					continue
+				}
+				if sc := cc.StaticCallee(); sc != nil && sc.String() == callee && idx < len(cc.Args) {
+					v := "<non-constant>"
+					if c, ok := cc.Args[idx].(*ssa.Const); ok {
+						if s, ok := constValue(c).(string); ok {
+							v = s
+						}
+					}
+					if res != "" && res != v {
+						res = "<conflicting>"
+					} else if res == "" {
+						res = v
+					}
+				}
+			}
+		}
+		for _, an := range f.AnonFuncs {
+			visit(an)
+		}
+	}
+	for _, m := range pkg.Members {
+		if f, ok := m.(*ssa.Function); ok {
+			visit(f)
+		}
+	}
+	return res
 }
